@@ -106,6 +106,7 @@ class Rule:
         """
         if self.fixable:
             self.analyze(oFile)
+            self._order_violations_by_position()
             self._print_debug_message("Fixing rule: " + self.unique_id)
             self._filter_out_fix_only_violations(dFixOnly)
             for oViolation in self.violations[::-1]:
@@ -210,6 +211,16 @@ class Rule:
             else:
                 lNewViolations.append(oViolation)
         self.violations = lNewViolations
+
+    def _order_violations_by_position(self):
+        """
+        The fixes are spliced back into the file last violation first.
+        That keeps the recorded indexes valid only if the violations are in increasing start index order.
+        """
+        try:
+            self.violations.sort(key=lambda oViolation: oViolation.get_start_index())
+        except TypeError:
+            pass
 
     def add_option(self, oOption):
         self.options.append(oOption)
